@@ -305,6 +305,15 @@ fn space_prolog() -> Vec<String> {
             v.push(format!("<?xml version=\"1.0\"?>\n{dt}{}", wrap(attrs, body)));
         }
     }
+    // prefixed namespace declarations before the default one on the root (the order many editors write), with
+    // prolog / epilog items which only survive if the document is recognised as real SVG
+    for pre in ["", "<?xml version=\"1.0\"?>\n<?xml-stylesheet href=\"a.css\"?>\n<!DOCTYPE svg>\n"] {
+        for post in ["", "\n<?end?>"] {
+            v.push(format!("{pre}<svg xmlns:xlink=\"http://www.w3.org/1999/xlink\" xmlns=\"{NS}\" width=\"5\"><rect/><use xlink:href=\"#a\"/></svg>{post}"));
+            v.push(format!("{pre}<svg xmlns:a=\"urn:a\" xmlns:b=\"urn:b\" a:x=\"1\" xmlns=\"{NS}\"><b:y wh=\"3\"/></svg>{post}"));
+            v.push(format!("{pre}<svg version=\"1.1\" id=\"r\" xmlns=\"{NS}\" xmlns:xlink=\"http://www.w3.org/1999/xlink\"><rect wh=\"3\"/></svg>{post}"));
+        }
+    }
     // '<' inside a comment, a literal or a PI of the internal subset
     for dt in ["<!DOCTYPE svg [<!-- a < b -->]>", "<!DOCTYPE svg [<!ENTITY e \"a<b\">]>", "<!DOCTYPE svg [<?pi < ?>]>"] {
         v.push(format!("{dt}{}", wrap("", "<rect/>")));
